@@ -15,6 +15,8 @@ import (
 	"strings"
 
 	"golang.org/x/tools/go/packages"
+
+	"wucheck/core"
 )
 
 const maxCP = 0x10FFFF
@@ -180,6 +182,126 @@ type tabEnv struct {
 	globals map[types.Object]interface{}
 	locals  map[types.Object]interface{}
 	unknown []string
+	// evaluation of module helper functions used by the tables (newCodePointSet(...), addRange(...))
+	depth    int
+	ret      interface{}
+	returned bool
+	decls    map[*types.Func]*ast.FuncDecl
+	declPkg  map[*types.Func]*packages.Package
+}
+
+// helperDecl finds the declaration of a module function (tables may be built through small helpers).
+func (e *tabEnv) helperDecl(fn *types.Func) (*ast.FuncDecl, *packages.Package) {
+	if e.decls == nil {
+		e.decls = map[*types.Func]*ast.FuncDecl{}
+		e.declPkg = map[*types.Func]*packages.Package{}
+		for _, pk := range e.c.P.ByName {
+			for _, f := range pk.Syntax {
+				for _, d := range f.Decls {
+					if fd, ok := d.(*ast.FuncDecl); ok && fd.Body != nil {
+						if o, ok := pk.TypesInfo.Defs[fd.Name].(*types.Func); ok {
+							e.decls[o] = fd
+							e.declPkg[o] = pk
+						}
+					}
+				}
+			}
+		}
+	}
+	return e.decls[fn], e.declPkg[fn]
+}
+
+// callHelper evaluates a call of a module function: parameters bound to table values, body executed by the same
+// small interpreter (calls, counted loops, range over a variadic parameter, return).
+func (e *tabEnv) callHelper(pk *packages.Package, call *ast.CallExpr, fn *types.Func, recv ast.Expr) (interface{}, bool) {
+	fd, fpk := e.helperDecl(fn)
+	if fd == nil || e.depth >= 4 {
+		return nil, false
+	}
+	sig := fn.Type().(*types.Signature)
+	if sig.Results().Len() > 1 {
+		return nil, false
+	}
+	saved := map[types.Object]interface{}{}
+	had := map[types.Object]bool{}
+	bind := func(o types.Object, v interface{}) {
+		if o == nil {
+			return
+		}
+		if old, ok := e.locals[o]; ok {
+			saved[o], had[o] = old, true
+		} else {
+			had[o] = false
+		}
+		e.locals[o] = v
+	}
+	// evaluate the arguments in the caller's environment first
+	var vals []interface{}
+	np := sig.Params().Len()
+	for i := 0; i < np; i++ {
+		variadic := sig.Variadic() && i == np-1
+		if !variadic {
+			if i >= len(call.Args) {
+				return nil, false
+			}
+			vals = append(vals, e.eval(pk, call.Args[i]))
+			continue
+		}
+		if call.Ellipsis != token.NoPos {
+			v, ok := e.eval(pk, call.Args[i]).([]int64)
+			if !ok {
+				return nil, false
+			}
+			vals = append(vals, v)
+			continue
+		}
+		var xs []int64
+		for _, a := range call.Args[i:] {
+			v, ok := e.constInt(pk, a)
+			if !ok {
+				return nil, false
+			}
+			xs = append(xs, v)
+		}
+		vals = append(vals, xs)
+	}
+	var rv interface{}
+	if recv != nil {
+		rv = e.eval(pk, recv)
+	}
+	for _, v := range append(append([]interface{}(nil), vals...), rv) {
+		if _, bad := v.(tvUnknown); bad {
+			return v, true
+		}
+	}
+	// bind
+	i := 0
+	if fd.Recv != nil && len(fd.Recv.List) == 1 && len(fd.Recv.List[0].Names) == 1 {
+		bind(fpk.TypesInfo.Defs[fd.Recv.List[0].Names[0]], rv)
+	}
+	for _, fl := range fd.Type.Params.List {
+		for _, nm := range fl.Names {
+			if i < len(vals) {
+				bind(fpk.TypesInfo.Defs[nm], vals[i])
+			}
+			i++
+		}
+	}
+	sr, sret := e.ret, e.returned
+	e.ret, e.returned = nil, false
+	e.depth++
+	e.exec(fpk, fd.Body)
+	e.depth--
+	out := e.ret
+	e.ret, e.returned = sr, sret
+	for o, h := range had {
+		if h {
+			e.locals[o] = saved[o]
+		} else {
+			delete(e.locals, o)
+		}
+	}
+	return out, true
 }
 
 func (e *tabEnv) unk(why string, n ast.Node, pk *packages.Package) interface{} {
@@ -288,6 +410,12 @@ func (e *tabEnv) call(pk *packages.Package, call *ast.CallExpr) interface{} {
 		return e.unk("call of a non-function", call, pk)
 	}
 	full := fn.FullName()
+	if fn.Pkg() != nil && strings.HasPrefix(fn.Pkg().Path(), core.ModPath) && !tabPrimitive[full] {
+		if v, ok := e.callHelper(pk, call, fn, recv); ok {
+			return v
+		}
+		return e.unk("call of "+full+" is outside the table DSL", call, pk)
+	}
 	if call.Ellipsis != token.NoPos {
 		return e.unk("variadic spread in a table expression", call, pk)
 	}
@@ -358,9 +486,59 @@ func (e *tabEnv) call(pk *packages.Package, call *ast.CallExpr) interface{} {
 	return e.unk("call of "+full+" is outside the table DSL", call, pk)
 }
 
+// tabPrimitive: module functions whose meaning the evaluator knows (checked against their bodies by TAB-ctor).
+var tabPrimitive = map[string]bool{
+	"github.com/nlnwa/whatwg-url/url.NewPercentEncodeSet":       true,
+	"(*github.com/nlnwa/whatwg-url/url.PercentEncodeSet).Set":   true,
+	"(*github.com/nlnwa/whatwg-url/url.PercentEncodeSet).Clear": true,
+}
+
 func (e *tabEnv) exec(pk *packages.Package, st ast.Stmt) {
 	info := pk.TypesInfo
+	if e.returned {
+		return
+	}
 	switch x := st.(type) {
+	case *ast.ReturnStmt:
+		if e.depth == 0 {
+			e.unk("return in init()", st, pk)
+			return
+		}
+		if len(x.Results) == 1 {
+			e.ret = e.eval(pk, x.Results[0])
+		}
+		e.returned = true
+	case *ast.RangeStmt:
+		xs, ok := e.eval(pk, x.X).([]int64)
+		if !ok || x.Tok != token.DEFINE {
+			e.unk("range over something other than a list of code points", st, pk)
+			return
+		}
+		var kv, vv types.Object
+		if id, ok := x.Key.(*ast.Ident); ok && id.Name != "_" {
+			kv = info.Defs[id]
+		}
+		if id, ok := x.Value.(*ast.Ident); ok && id.Name != "_" {
+			vv = info.Defs[id]
+		}
+		for i, v := range xs {
+			if kv != nil {
+				e.locals[kv] = int64(i)
+			}
+			if vv != nil {
+				e.locals[vv] = v
+			}
+			e.exec(pk, x.Body)
+			if e.returned {
+				break
+			}
+		}
+		if kv != nil {
+			delete(e.locals, kv)
+		}
+		if vv != nil {
+			delete(e.locals, vv)
+		}
 	case *ast.ExprStmt:
 		if call, ok := x.X.(*ast.CallExpr); ok {
 			e.call(pk, call)
@@ -371,6 +549,15 @@ func (e *tabEnv) exec(pk *packages.Package, st ast.Stmt) {
 		for _, s := range x.List {
 			e.exec(pk, s)
 		}
+	case *ast.AssignStmt:
+		// x := <table expression> inside a helper
+		if e.depth > 0 && x.Tok == token.DEFINE && len(x.Lhs) == 1 && len(x.Rhs) == 1 {
+			if id, ok := x.Lhs[0].(*ast.Ident); ok {
+				e.locals[info.Defs[id]] = e.eval(pk, x.Rhs[0])
+				return
+			}
+		}
+		e.unk("assignment in a table helper", st, pk)
 	case *ast.ForStmt:
 		// for i := c0; i <= c1; i++ { ... } with constant bounds
 		as, ok := x.Init.(*ast.AssignStmt)
@@ -411,7 +598,7 @@ func (e *tabEnv) exec(pk *packages.Package, st ast.Stmt) {
 			e.unk("loop range too large", st, pk)
 			return
 		}
-		for i := lo; i <= hi; i++ {
+		for i := lo; i <= hi && !e.returned; i++ {
 			e.locals[iv] = i
 			e.exec(pk, x.Body)
 		}
@@ -611,8 +798,8 @@ func predDenotation(c *Ctx, method string, p *tvPES) (iset, error) {
 		return nil, fmt.Errorf("condition %s is outside the predicate DSL", types.ExprString(x))
 	}
 	// body: a chain of `if cond { return K }` followed by `return K` (or `return cond`)
-	result := iset(nil)    // points decided true so far
-	decided := iset(nil)   // points decided (true or false)
+	result := iset(nil)  // points decided true so far
+	decided := iset(nil) // points decided (true or false)
 	var walk func(stmts []ast.Stmt, live iset) error
 	walk = func(stmts []ast.Stmt, live iset) error {
 		for _, st := range stmts {
